@@ -28,7 +28,7 @@ var c20 = core.Register(&core.Prop{
 	Shards: func(tier string) int { return pickTier(tier, 8, 16) },
 	Floors: func(c map[string]int64, tier string) []string {
 		var out []string
-		for _, k := range []string{"histories", "op:setthis", "op:setthis-nil", "op:setvalue", "op:resolve", "op:set", "op:get", "resolve_on_unset_map", "caller_map_comparisons", "locals_survived_evaluations", "locals_dropped_by_setthis", "untouched_entries_compared", "storm_comparisons", "stability_cases", "self_binding_histories"} {
+		for _, k := range []string{"histories", "op:setthis", "op:setthis-nil", "op:setvalue", "op:resolve", "op:set", "op:get", "resolve_on_unset_map", "caller_map_comparisons", "locals_survived_evaluations", "locals_dropped_by_setthis", "untouched_entries_compared", "storm_comparisons", "stability_cases", "self_binding_histories", "opaque_bindings", "opaque_later_reads"} {
 			if c[k] == 0 {
 				out = append(out, "coverage floor: no "+k)
 			}
@@ -349,6 +349,7 @@ func init() { c20.Run = runC20 }
 func runC20(w *core.W) {
 	runStability(w, c20Stable)
 	runStorm(w)
+	runC20Opaque(w)
 	for i, f := range hostMutFormulas {
 		if w.Mine(i) {
 			c20HostMut(w, &HostMutCase{Src: f})
